@@ -169,6 +169,9 @@ struct StoreRec {
     val: u64,
     at: Vc,
     rel: Vc,
+    /// written by a SeqCst operation (a SeqCst load may not read anything older than the newest
+    /// of these; newer non-SeqCst stores are allowed to be invisible to it)
+    sc: bool,
 }
 
 struct Loc {
@@ -193,6 +196,10 @@ struct Snap {
     /// addr -> (epoch, alive, open sections)
     cur: HashMap<usize, (u32, bool, i32)>,
     epochs: u32,
+    /// addr -> clock of the allocating thread at Alloc (only snapshots created by `store`)
+    alloc_vc: HashMap<usize, (i32, Vc)>,
+    /// addr -> (thread, clock) of every read section closed on the current epoch
+    closed: HashMap<usize, Vec<(i32, Vc)>>,
 }
 
 /// Channel cell race tracker (C07, always on).
@@ -716,6 +723,7 @@ impl Exec {
                     val: cur,
                     at: [0; MAX_THREADS],
                     rel: [0; MAX_THREADS],
+                    sc: true,
                 });
                 for t in st.threads.iter_mut() {
                     t.floor.remove(&op.addr);
@@ -731,9 +739,21 @@ impl Exec {
             Kind::Load => {
                 real(true);
                 let mut idx = last;
-                if weak && op.success != Ordering::SeqCst && last > 0 {
-                    // lower bound: coherence floor and newest hb-visible store
+                if weak && last > 0 {
+                    // lower bound: coherence floor and newest hb-visible store (and, for a SeqCst
+                    // load, the newest SeqCst store)
                     let mut m = *st.threads[me].floor.get(&op.addr).unwrap_or(&0);
+                    if op.success == Ordering::SeqCst {
+                        let stores = &st.locs[&op.addr].stores;
+                        let mut k = last;
+                        while k > m {
+                            if stores[k].sc {
+                                m = k;
+                                break;
+                            }
+                            k -= 1;
+                        }
+                    }
                     {
                         let stores = &st.locs[&op.addr].stores;
                         let mut k = last;
@@ -772,7 +792,7 @@ impl Exec {
                 let (_, new, _) = real(true);
                 let rel = if has_rel(op.success) { tvc } else { [0; MAX_THREADS] };
                 let l = st.locs.get_mut(&op.addr).unwrap();
-                l.stores.push(StoreRec { val: new, at: tvc, rel });
+                l.stores.push(StoreRec { val: new, at: tvc, rel, sc: op.success == Ordering::SeqCst });
                 let n = l.stores.len() - 1;
                 st.threads[me].floor.insert(op.addr, n);
                 result = (cur, new, true);
@@ -812,7 +832,7 @@ impl Exec {
                             vc_join(&mut rel, &tv);
                         }
                         let l = st.locs.get_mut(&op.addr).unwrap();
-                        l.stores.push(StoreRec { val: new, at: tv, rel });
+                        l.stores.push(StoreRec { val: new, at: tv, rel, sc: op.success == Ordering::SeqCst });
                         let n = l.stores.len() - 1;
                         st.threads[me].floor.insert(op.addr, n);
                     } else {
@@ -980,6 +1000,13 @@ impl Exec {
                 st.snap.epochs += 1;
                 let e = st.snap.epochs;
                 st.snap.cur.insert(a, (e, true, 0));
+                st.snap.closed.remove(&a);
+                st.snap.alloc_vc.remove(&a);
+                if b != 0 && tid >= 0 {
+                    // created by `store`: it reaches readers only through the atomic pointer
+                    let v = st.threads[tid as usize].vc;
+                    st.snap.alloc_vc.insert(a, (tid, v));
+                }
             }
             Event::Free => match st.snap.cur.get_mut(&a) {
                 Some(s) => {
@@ -997,6 +1024,24 @@ impl Exec {
                         ));
                     }
                     s.1 = false;
+                    let epoch = s.0;
+                    // every read section on it must have ended *before* the free in the
+                    // happens-before order given by the declared orderings (the reader's last
+                    // reads may otherwise still be in flight when the memory is released)
+                    if bad.is_none() && tid >= 0 {
+                        let now = st.threads[tid as usize].vc;
+                        if let Some(cl) = st.snap.closed.get(&a) {
+                            for (rt, rvc) in cl {
+                                if *rt >= 0 && *rt != tid && rvc[*rt as usize] > now[*rt as usize] {
+                                    bad = Some((
+                                        "C01/free-unordered-after-reader",
+                                        format!("snapshot #{} freed by thread {} without a happens-before edge from the end of thread {}'s read section (declared orderings do not order the reader's last accesses before the release)", epoch, tid, rt),
+                                    ));
+                                    break;
+                                }
+                            }
+                        }
+                    }
                 }
                 None => {}
             },
@@ -1009,15 +1054,33 @@ impl Exec {
                         ));
                     } else {
                         s.2 += 1;
+                        let epoch = s.0;
+                        if tid >= 0 {
+                            if let Some((wt, wvc)) = st.snap.alloc_vc.get(&a).cloned() {
+                                let now = st.threads[tid as usize].vc;
+                                if wt != tid && wvc[wt as usize] > now[wt as usize] {
+                                    bad = Some((
+                                        "C01/snapshot-unpublished",
+                                        format!("thread {} opened a read section on snapshot #{} without a happens-before edge from its initialisation by thread {} (the pointer was published with too weak an ordering)", tid, epoch, wt),
+                                    ));
+                                }
+                            }
+                        }
                     }
                 }
                 None => {}
             },
             Event::SectionClose => {
+                let mut live = false;
                 if let Some(s) = st.snap.cur.get_mut(&a) {
                     if s.1 {
                         s.2 -= 1;
+                        live = true;
                     }
+                }
+                if live && tid >= 0 {
+                    let v = st.threads[tid as usize].vc;
+                    st.snap.closed.entry(a).or_default().push((tid, v));
                 }
             }
             Event::CellWrite | Event::CellTake => {
